@@ -78,6 +78,8 @@ fn main() {
         ("replay", "sst") => isolate::run_replay(&args, props::sst::replay),
         ("drive", "sst") => isolate::run_drive(&args, props::sst::drive),
         ("drive", "biffcells") => isolate::run_drive(&args, props::biff::drive_cells),
+        ("replay", "biff5") => props::biff5::replay(&args),
+        ("drive", "biff5") => props::biff5::drive(&args),
         ("replay", "xlsbfmla") => props::xlsb_fmla::replay(&args),
         ("replay", "xlsbcols") => props::xlsb_fmla::columns(&args),
         _ => {
